@@ -666,12 +666,46 @@ fn run_b_mixed(ctx: &Ctx, seed: u64) -> RunOutcome {
             all.extend(v);
         }
     });
+    // fork without exec (a pre-fork server): this process has signed; a forked child and the parent go on
+    // signing the same message with the same key. A user-space generator that is copied by fork hands
+    // out the same bytes on both sides until it is reseeded.
+    if std::env::var("VERIF_C08_NO_FORK").is_err() {
+        let real = world::SignPlan { stream_seed: 0, mode: None, fire: vec![] };
+        let child = crate::isolate::isolated(
+            || {
+                let mut v = Vec::new();
+                for _ in 0..4 {
+                    if let Some(s) = world::sign_sim::<V512>(&a, &msg, &real, None).0.ok().and_then(|s| salt_of(&V512::sig_to_bytes(&s))) {
+                        v.extend_from_slice(&s);
+                    }
+                }
+                v
+            },
+            crate::isolate::run_timeout_s(),
+        );
+        for i in 0..4 {
+            if let Some(s) = world::sign_sim::<V512>(&a, &msg, &real, None).0.ok().and_then(|s| salt_of(&V512::sig_to_bytes(&s))) {
+                all.push((format!("after-fork-parent-{}", i), s));
+            }
+        }
+        if let Ok(b) = child {
+            for (i, c) in b.chunks_exact(40).enumerate() {
+                all.push((format!("after-fork-child-{}", i), c.try_into().unwrap()));
+            }
+            st.inc("fault.P2_fork_without_exec");
+        } else {
+            st.notes.insert("NOTE: the forked child of the fork-without-exec scenario did not deliver its salts".into());
+        }
+    }
     st.add("b.alternating_salts", all.len() as u64);
     st.evaluations += all.len() as u64;
     for (_, s) in &all {
         st.distinct.insert(crate::rng::hash_bytes(10, s));
     }
-    if let Some((class, detail)) = judge_salts(&all, "real generator, keys and variants taking turns on one thread") {
+    // parent and forked child first (its own class), then everything together
+    let forked: Vec<(String, [u8; 40])> = all.iter().filter(|(l, _)| l.starts_with("after-fork-")).cloned().collect();
+    let verdict = judge_salts(&forked, "real generator, parent and forked child").filter(|(c, _)| c.starts_with("salt repeated")).or_else(|| judge_salts(&all, "real generator, keys and variants taking turns on one thread"));
+    if let Some((class, detail)) = verdict {
         out.violations.push(Violation {
             property: PROP,
             class,
@@ -892,7 +926,7 @@ pub fn check(tier: Tier, seed: u64) -> i32 {
             return 2;
         }
     }
-    rep.rule = "a case is one sign call whose salt (bytes 1..41 of the encoded signature) enters the history: (a) under simulator-owned uniform entropy, 1-6 baton-scheduled threads x 4-15 calls over two shared keys with half of the calls on one common message, some with forced retries, and in half of the runs 2-3 calls on one message and key whose streams agree on their first 32 or 64 bits only (E7); (b) under the real thread_rng, threads x calls, fresh child processes, fresh processes that generate the key from its seed and sign on their main thread, a clone phase (a key that has signed is cloned, original and copy sign alternately), 200 (1200) short-lived threads signing once each, and a long single-thread history (3000 / 1500 calls in quick, 20000 / 8300 in thorough) on one message and one key, a run in which two Falcon-512 and two Falcon-1024 keys take turns on one thread (80 turns on the main thread of a process, 80 on a second thread), a volume batch (16 x 12500 signatures in quick, 64 x 50000 in thorough, one process each) whose salts must not repeat over the whole batch, and a deep batch (instrumented build: 2-4 threads x 3-6 calls, pre-emption at function entries, calls starting side by side); every observed salt is non-trivial; distinct = distinct salt values".into();
+    rep.rule = "a case is one sign call whose salt (bytes 1..41 of the encoded signature) enters the history: (a) under simulator-owned uniform entropy, 1-6 baton-scheduled threads x 4-15 calls over two shared keys with half of the calls on one common message, some with forced retries, and in half of the runs 2-3 calls on one message and key whose streams agree on their first 32 or 64 bits only (E7); (b) under the real thread_rng, threads x calls, fresh child processes, fresh processes that generate the key from its seed and sign on their main thread, a clone phase (a key that has signed is cloned, original and copy sign alternately), 200 (1200) short-lived threads signing once each, and a long single-thread history (3000 / 1500 calls in quick, 20000 / 8300 in thorough) on one message and one key, a run in which two Falcon-512 and two Falcon-1024 keys take turns on one thread (80 turns on the main thread of a process, 80 on a second thread) and which then forks without exec (parent and child each sign four more times), a volume batch (16 x 12500 signatures in quick, 64 x 50000 in thorough, one process each) whose salts must not repeat over the whole batch, and a deep batch (instrumented build: 2-4 threads x 3-6 calls, pre-emption at function entries, calls starting side by side); every observed salt is non-trivial; distinct = distinct salt values".into();
     rep.assumptions = vec![
         "(a) masks, by construction, a generator that is not the hooked one; (b) exists for that case and is not bit-replayable (it observes real OS entropy); its verdict depends on the values only through collisions (probability < 2^-200)".into(),
         "bit balance: every one of the 320 salt bit positions must be set in N/2 +- 6.3*sqrt(N)/2 of N >= 2000 salts".into(),
